@@ -296,3 +296,85 @@ Theorem C02_skip_iff_no_violable_header_refuted_annotation :
   (forall ch, remove_required_property (plain s_example_location) ch = None).
 Proof. exact annotated_header_not_skipped_refuted. Qed.
 Print Assumptions C02_skip_iff_no_violable_header_refuted_annotation.
+
+(* ===== Part E: the query on the wire (containers; the guard is_non_empty_query of the query filter) ===== *)
+
+(* the guard of the code is sound for every query dict: a value it lets through is sent with at least one key=value pair,
+   after jsonify_python_specific_types, the empty-dict rewriting of the transport and the encoding of requests *)
+Theorem C02_query_guard_sound : forall q, is_non_empty_query q = true -> wire_count q <> 0%nat.
+Proof. exact query_guard_sound. Qed.
+Print Assumptions C02_query_guard_sound.
+
+(* it rejects exactly the values whose wire form is empty, where no top-level value is None or the empty dict ... *)
+Theorem C02_query_guard_exact_partial : forall q, no_none_or_empty_dict q = true ->
+  is_non_empty_query q = negb (Nat.eqb (wire_count q) 0).
+Proof. exact query_guard_exact. Qed.
+Print Assumptions C02_query_guard_exact_partial.
+
+(* ... and over-rejects those two (sent as a=null and a=, the guard reads the raw value): lost cases, not a wrong label *)
+Theorem C02_query_guard_exact_refuted :
+  is_non_empty_query q_top_none = false /\ wire_count q_top_none = 1%nat /\ query_wire q_top_none = Some [(k_a, s_null)] /\
+  is_non_empty_query [(k_a, JObj [])] = false /\ query_wire [(k_a, JObj [])] = Some [(k_a, [])].
+Proof. exact query_guard_exact_refuted. Qed.
+Print Assumptions C02_query_guard_exact_refuted.
+
+(* the property for the query location ON THE WIRE: a value that passes the filter of negative_schema (guard of the code,
+   invalid for the location schema) and whose offending entries survive is sent with a non-empty query string that the
+   declared schema, read by a server from the text, rejects *)
+Theorem C02_negative_query_on_wire_partial : forall d q ps,
+  passes_query_filter is_non_empty_query d q = true -> query_survives d q = true -> query_wire q = Some ps ->
+  ps <> [] /\ wire_valid_query d ps = false.
+Proof. exact negative_query_on_wire. Qed.
+Print Assumptions C02_negative_query_on_wire_partial.
+
+(* the number of pairs is the one the guard theorem speaks of *)
+Theorem C02_query_wire_length : forall q ps, query_wire q = Some ps -> length ps = wire_count q.
+Proof. exact query_wire_len. Qed.
+Print Assumptions C02_query_wire_length.
+
+(* scalar values inside the coercion region of Part C are inside the region *)
+Theorem C02_scalar_query_survives : forall d q, scalar_query_safe d q = true -> query_survives d q = true.
+Proof. exact scalar_query_survives. Qed.
+Print Assumptions C02_scalar_query_survives.
+
+(* finding F8: an undeclared name with an empty list (or a list of None) sends nothing; limit=5 alone is a valid query *)
+Theorem C02_negative_query_on_wire_refuted_dropped_entry :
+  passes_query_filter is_non_empty_query d_limit q_vanishing = true /\ entry_dropped q_vanishing = true /\
+  query_wire q_vanishing = Some [(k_limit, [53%N])] /\ wire_valid_query d_limit [(k_limit, [53%N])] = true.
+Proof. exact negative_query_on_wire_refuted_dropped. Qed.
+Print Assumptions C02_negative_query_on_wire_refuted_dropped_entry.
+
+(* finding F3 with containers: limit = [None, 1] is sent as limit=1 *)
+Theorem C02_negative_query_on_wire_refuted_none_item :
+  passes_query_filter is_non_empty_query d_limit q_none_and_one = true /\ entry_dropped q_none_and_one = false /\
+  query_wire q_none_and_one = Some [(k_limit, [49%N])] /\ wire_valid_query d_limit [(k_limit, [49%N])] = true.
+Proof. exact negative_query_on_wire_refuted_none_item. Qed.
+Print Assumptions C02_negative_query_on_wire_refuted_none_item.
+
+(* sentinel, NOT the code: a guard that counts every None as the text null lets limit = [None] through the filter;
+   nothing is sent, and nothing is a valid query when limit is optional.  The guard of the code rejects it. *)
+Theorem C02_query_guard_none_as_null_sentinel_refuted :
+  passes_query_filter is_non_empty_query_none_as_null d_limit q_list_of_none = true /\
+  query_wire q_list_of_none = Some [] /\ wire_valid_query d_limit [] = true /\
+  passes_query_filter is_non_empty_query d_limit q_list_of_none = false.
+Proof. exact none_as_null_guard_refuted. Qed.
+Print Assumptions C02_query_guard_none_as_null_sentinel_refuted.
+
+Theorem C02_query_on_wire_hypotheses_satisfiable :
+  passes_query_filter is_non_empty_query d_two q_survivor = true /\ query_survives d_two q_survivor = true /\
+  query_wire q_survivor = Some [(k_limit, [49%N]); (k_limit, [50%N]); (k_zz, [78; 111; 110; 101]%N); (k_a, s_true)] /\
+  no_none_or_empty_dict q_survivor = true /\
+  scalar_query_safe d_two [(k_limit, JBool false); (k_zz, JNull)] = true /\
+  passes_query_filter is_non_empty_query d_two [(k_limit, JBool false); (k_zz, JNull)] = true.
+Proof. exact query_on_wire_nonvacuous. Qed.
+Print Assumptions C02_query_on_wire_hypotheses_satisfiable.
+
+(* finding F9: C02_query_guard_sound is about parameters without a serializer.  For a declared object parameter with
+   explode true the serializer extracted_object runs after the guard: the guard sees f=x, the members are sent instead,
+   and x = [None] sends nothing: no query string at all *)
+Theorem C02_query_guard_sound_refuted_exploded_object :
+  is_non_empty_query q_exploded = true /\ extracted_object k_f q_exploded = [(k_x, JArr [JNull])] /\
+  wire_count (extracted_object k_f q_exploded) = 0%nat /\ query_wire (extracted_object k_f q_exploded) = Some [] /\
+  wire_count q_exploded = 1%nat.
+Proof. exact query_guard_sound_refuted_exploded. Qed.
+Print Assumptions C02_query_guard_sound_refuted_exploded_object.
